@@ -274,6 +274,11 @@ def run_case(case):
             except (K.Rejected, Exception):
                 return K.result("held", cell="skip-base", nontrivial=False, obs={"skipped_base": 1})
         new = K.mat_members(case["members"])
+        if pre is not None:
+            # a new member named like one of the archive appended to would make the by-name comparison of the two readers ambiguous
+            # (false alarm of the thorough tier, seed 4: 'aaa...' of 1 byte in the base, 'aaa...' of 0 bytes appended)
+            taken = set(pre[0])
+            new = [((nm if nm not in taken else "appended-%d-%s" % (i, nm)), dt) for i, (nm, dt) in enumerate(new)]
         mode = "w" if case["kind"] == "create" else "a"
         if case.get("crafted"):
             new = _crafted_members(initial, case, pw)
